@@ -21,14 +21,6 @@ PartsThorough == [proto  |-> {<<97, 98>>, <<99, 49>>},                          
                   port   |-> {<<56, 48>>, <<120>>, <<56, 58, 49>>},                   \* 80  x  8:1
                   path   |-> {<<47, 112>>, <<47, 97, 64, 98>>, <<47, 97, 63, 98>>},   \* /p  /a@b  /a?b
                   query  |-> {<<113>>, <<120, 47, 121, 64, 122, 58, 119>>}]           \* q   x/y@z:w
-\* laws only (no edges): a larger universe, four texts for most parts
-PartsLaws == [proto  |-> {<<97, 98>>, <<99, 49>>, <<100>>, <<>>},                     \* ab c1 d (empty)
-              user   |-> {<<117>>, <<109, 101>>, <<118, 58>>, <<>>},                  \* u me v: (empty)
-              passwd |-> {<<112, 119>>, <<112, 58, 119>>, <<112, 64>>, <<>>},         \* pw p:w p@ (empty)
-              host   |-> {<<104>>, <<108, 111>>, <<104, 46, 120>>, <<104, 64>>},      \* h lo h.x h@
-              port   |-> {<<56, 48>>, <<120>>, <<56, 58, 49>>, <<>>},                 \* 80 x 8:1 (empty)
-              path   |-> {<<47, 112>>, <<47, 97, 64, 98>>, <<47, 97, 63, 98>>, <<47>>, <<47, 47, 120>>},   \* /p /a@b /a?b / //x
-              query  |-> {<<113>>, <<120, 47, 121, 64, 122, 58, 119>>, <<107, 61, 118, 63>>, <<>>}]   \* q x/y@z:w k=v? (empty)
 \* the shape universe: every well-formed tuple over Parts, written with and without //
 ShapeTexts == {Assemble(c, sl) : c \in {k \in AllTuples : WF(k, FALSE)}, sl \in {FALSE}}
               \cup {Assemble(c, TRUE) : c \in {k \in AllTuples : WF(k, TRUE)}}
@@ -38,6 +30,7 @@ Alpha == {97, 58, 47, 64, 63}
 StringsUpTo(n) == UNION {[1 .. k -> Alpha] : k \in 0 .. n}
 Short4 == StringsUpTo(4)
 Short5 == StringsUpTo(5)
+NoTexts == {}
 NoParts == [proto |-> {}, user |-> {}, passwd |-> {}, host |-> {}, port |-> {}, path |-> {}, query |-> {}]
 
 LookupsQuick    == {<<"P", 0>>, <<"N", 0>>, <<"T", 80>>, <<"U", 8080>>}
